@@ -49,8 +49,11 @@ func HostileHTML(r *rand.Rand, depth int) Hostile {
 	}
 	if r.Intn(8) == 0 {
 		// one kind of indenting container nested far deeper than any terminal is wide (80..160 levels, about 2-3 KB)
-		k := []int{0, 1, 1, 4}[r.Intn(4)]
+		k := []int{0, 1, 1, 1, 4}[r.Intn(5)]
 		d := 80 + r.Intn(81)
+		if r.Intn(2) == 0 {
+			d = 140 + r.Intn(21) // half of them at the deep end, where a cost that grows faster than the square of the depth shows
+		}
 		b.WriteString(strings.Repeat(nesters[k].open, d))
 		b.WriteString([]string{"two words", "<hr>", "a <b>few</b> more words here", "<img src=\"https://x.example/i\" alt=\"alt text\">"}[r.Intn(4)])
 		if r.Intn(2) == 0 {
